@@ -1701,11 +1701,22 @@ class Engine:
         tag = f"{c.key.split(':')[1]}@{line}"
         # precondition
         req = c.requires()
+        eq_domain = None
         if req is not None and not run.merge_only:
             pre = self.eval_clause(c, req, bound, extra=ghosts).truth()
             guard = z3.And(run.cond_stack) if run.cond_stack else None
-            run.obligation("pre@call", z3.Implies(guard, pre) if guard is not None else pre, node, name=tag)
-            run.assume(z3.Implies(guard, pre) if guard is not None else pre)
+            if fi is not None and fi.name == "__eq__":
+                # `a == b` may reach any repository __eq__ with operands outside the domain its contract was verified
+                # on (a harmless comparison with a number, say).  That is not an error of the caller: no obligation is
+                # generated; the postconditions are only assumed where the domain holds, elsewhere the result is an
+                # unknown value.  Assumption (listed): outside its verified domain an __eq__ raises nothing beyond the
+                # contract's raises_only.
+                eq_domain = pre
+                run.assumptions_used.add("== dispatched to a repository __eq__ outside that method's verified domain yields an unknown "
+                                         "result and raises nothing beyond the contract's raises_only")
+            else:
+                run.obligation("pre@call", z3.Implies(guard, pre) if guard is not None else pre, node, name=tag)
+                run.assume(z3.Implies(guard, pre) if guard is not None else pre)
         # termination of recursion
         dec = c.decreases()
         if dec is not None and run.own_contract is not None and run.own_contract.decreases() is not None and \
@@ -1768,6 +1779,8 @@ class Engine:
         b2["result"] = res
         for (ename, fn) in c.ensures():
             post = self.eval_clause(c, fn, b2, pre_run_state=pre_state, extra=ghosts).truth()
+            if eq_domain is not None:
+                post = z3.Implies(eq_domain, post)
             run.assume(z3.Implies(guard, post) if guard is not None else post)
         return res
 
